@@ -42,7 +42,7 @@ ASSUMPTIONS = [
     "loop part: tiny networks (all widths 3), batch size 2, horizon 10, warm-up 2; the shipped nnx.jit mode only; terminated and truncated episode ends are both enumerated",
     "flax/jax/numpy/gymnasium behave as documented; the scripted environment and the recording logger are trusted",
 ]
-BUDGET_S = {"quick": 480, "thorough": 2400}
+BUDGET_S = {"quick": 480, "thorough": 4800}
 
 F_ENTRY = "assess_performance_and_checkpoint"
 L_ENTRY = "train_td7"
